@@ -74,13 +74,14 @@ def dfifo_design(N, txd, rxd):
              f"    data_out = Port.output(Unsigned[{EW}], default=Null)",
              "    pushed = Port.output(Bit, default=False)", "    popped = Port.output(Bit, default=False)",
              "    obs_full = Port.output(Bit, default=False)", "    obs_empty = Port.output(Bit, default=False)",
+             f"    obs_front = Port.output(Unsigned[{EW}], default=Null)",
              "    def architecture(self):",
              "        ctx_p = std.SequentialContext(std.Clock(self.clk), std.Reset(self.reset))",
              "        ctx_c = std.SequentialContext(std.Clock(self.clk), std.Reset(self.reset))",
              f"        fifo = std.Fifo[Unsigned[{EW}], {N}]({a})",
              "        @ctx_p", "        def producer():", "            self.obs_full ^= fifo.full()",
              "            if self.push and not fifo.full():", "                fifo.push(self.data_in)", "                self.pushed ^= True",
-             "        @ctx_c", "        def consumer():", "            self.obs_empty ^= fifo.empty()",
+             "        @ctx_c", "        def consumer():", "            self.obs_empty ^= fifo.empty()", "            self.obs_front <<= fifo.front()",
              "            if self.pop and not fifo.empty():", "                self.data_out <<= fifo.pop()", "                self.popped ^= True"]
     return "\n".join(lines) + "\n"
 
@@ -116,6 +117,8 @@ class DFifoMonitor(Monitor):
         self.check(D.b_implies(D.b_and(nrst, D.v_ule(self.D, self.qpop, CW)), D.b_eq(obs_full, is_full)), "producer's full flag not exact after the hand-over settled")
         self.check(D.b_implies(D.b_and(nrst, D.v_ule(self.D, self.qpush, CW)), D.b_eq(obs_empty, is_empty)), "consumer's empty flag not exact after the hand-over settled")
         head = self.q[0]
+        # front() as the consumer sees it in the clock it decides: the oldest stored element whenever it sees 'not empty'
+        self.check(D.b_implies(D.b_and(nrst, D.b_not(obs_empty)), D.v_eq(outs["obs_front"], head, EW)), "front() in the consumer context differs from the oldest stored element")
         q1 = [mux(popped, self.q[k + 1] if k + 1 < self.cap else 0, self.q[k], EW) for k in range(self.cap)]
         len1 = mux(popped, D.v_sub(self.len, 1, LW), self.len, LW)
         q2 = [mux(D.b_and(pushed, D.v_eq(len1, k, LW)), ins["data_in"], q1[k], EW) for k in range(self.cap)]
@@ -204,7 +207,7 @@ def jobs(tier):
         Dq = 2 * (t + r) + 6
         K = Dq + 2 * N + 2
         js.append((f"Fifo|N={N}|tx_delay={t}|rx_delay={r}|two contexts", dfifo_design(N, t, r), {"reset": 1, "data_in": EW, "push": 1, "pop": 1},
-                   ["data_out", "pushed", "popped", "obs_full", "obs_empty"], K, lambda N=N, Dq=Dq: DFifoMonitor(N, Dq)))
+                   ["data_out", "pushed", "popped", "obs_full", "obs_empty", "obs_front"], K, lambda N=N, Dq=Dq: DFifoMonitor(N, Dq)))
     for N in Ns:
         for mode in ("default", "drop_old") if tier == "quick" else ("default", "no_overflow", "drop_old"):
             K = 3 * N + 4
